@@ -19,10 +19,12 @@ def expectedDir (g : List UInt8 → String → List Nat) (ps : List String) (es 
     Option (List (String × List Nat)) :=
   let files := eligibleContentsSpec es
   if files.any (fun x => x.2.isNone) then none
-  else some (if ps.contains p then files.filterMap fun (name, c) =>
+  else
+    -- a pattern named k times in the selection is analysed k times: every file's result is listed k times
+    let times := (ps.filter (· == p)).length
+    some (files.flatMap fun (name, c) =>
       match c with
-      | some bytes => let ls := g bytes p; if ls.isEmpty then none else some (name, ls)
-      | none => none
-    else [])
+      | some bytes => let ls := g bytes p; if ls.isEmpty then [] else List.replicate times (name, ls)
+      | none => [])
 
 end Solstat
